@@ -324,6 +324,7 @@ TRI_CLASSES = {"1": "map ill-formed after triangulation", "2": "face not replace
                "5": "neighbour adjacency or another face changed", "7": "fan refused a strictly convex polygon",
                "8": "ear clipping refused a simple polygon in general position"}
 PROPS["C13"] = dict(
+    translators=True,
     level="translation_validation",
     level_text="fan / ear-clipping kernels transcribed in Gallina (star search, ear test and index bookkeeping verbatim) and "
                "compared with the implementation; the property (n-2 triangles on the original vertices, orientation, exact "
@@ -339,7 +340,9 @@ PROPS["C13"] = dict(
     families=[
         Family("kern-tri", "core2", r_kern("tri", 2500, 40000, 2), 1, [(8, "tri_spec", TRI_CLASSES)]),
     ],
-    trusted=KERNEL_TRUST,
+    trusted=KERNEL_TRUST + ["translator tools/tr_kern.py (triangulation/fan.rs::process_convex_cell with its loop -> Map2/GenKern.v, "
+                            "proved equal to fan_convex_cell / fan_loop by reflexivity: C13_fan_convex_is_the_source); the star "
+                            "search of process_cell and ear clipping stay hand-transcribed"],
     assumptions=PROPS["C01"]["assumptions"],
 )
 
